@@ -855,6 +855,9 @@ func (b *BaseStore) LoadFromSnapshot(ctx context.Context) error {
 		return fmt.Errorf("unable to update index: %w", err)
 	}
 
+	// the entries are merged: progress catches up with the maximum
+	b.recalculateReplicationStatus(maxClock)
+
 	return nil
 }
 
